@@ -21,8 +21,8 @@ import BufrModel.Scale
   comparison; `eps = 0.5 / pow(10, scale)` with `pow` as in BufrModel.Scale (contract: correctly rounded).
 
   NOT modelled: time/location keys (TLC_FLAG_BIT, they need the location part of the run-time
-  metadata) and callback keys (CB_FLAG_BIT with a value); the driver and the harness answer
-  `unsupported` for them.  A key whose descriptor merely has the callback bit set and no value
+  metadata); the driver and the harness answer `unsupported` for them.  Callback keys
+  (CB_FLAG_BIT with a value) are modelled for the three callbacks the harness registers (`cbEval`).  A key whose descriptor merely has the callback bit set and no value
   (a replication or operator descriptor used as a key) is modelled: it can never match.
 -/
 namespace Bufr.Find
@@ -257,9 +257,20 @@ def qualKeyOk (ns : List Node) (ql : List Nat) (qk : Key) : Bool :=
     | [] => true
     | v :: _ => compareValue qd.val v (epsilonOf qd.enc.scale) == 0
 
+/-- the callbacks the correspondence harness registers with `bufr_set_key_callback` (a callback is the
+application's code; a key made by the harness carries `[kind, argument]` in place of the function
+pointer): 0 = always matches, 1 = never matches, 2 = the element holds the INT32 value `argument`.
+The callback answers 0 for a match. -/
+def cbEval (cb : Node) (vals : List Val) : Bool :=
+  match vals with
+  | [.i32 0, _] => true
+  | [.i32 1, _] => false
+  | [.i32 2, .i32 a] => (match cb.val with | .i32 v => v == a | _ => false)
+  | _ => false
+
 /-- the value test of the descriptor key `k` on the descriptor `cb` (same descriptor already) -/
 def elemKeyOk (cb : Node) (k : Key) : Bool :=
-  if k.hasCb && k.vals.length > 0 then false        -- callback keys: not modelled
+  if k.hasCb && k.vals.length > 0 then cbEval cb k.vals        -- callback keys
   else
     match k.vals with
     | [] => true
